@@ -21,7 +21,8 @@ ENV = dict(os.environ, GOFLAGS="-mod=mod", GOPROXY="off")
 
 def applies(patch):
     """does the patch still apply to /repo's working tree?"""
-    p = subprocess.run(["git", "-C", "/repo", "apply", "--check", patch], stdout=subprocess.PIPE, stderr=subprocess.STDOUT, text=True)
+    # the same tool bin/mutate.sh applies it with (offsets and fuzz are tolerated), as a dry run: /repo is not modified
+    p = subprocess.run(["patch", "-p1", "--dry-run", "-s", "-f", "-d", "/repo", "-i", patch], stdout=subprocess.PIPE, stderr=subprocess.STDOUT, text=True)
     return p.returncode == 0, p.stdout.strip()[-300:]
 
 
